@@ -297,6 +297,10 @@ func c16Gen(t *rapid.T) c16Case {
 				}
 			}
 		}
+		// a Circle whose radius exceeds the circumference (what the polygon approximation normalises must not be the object's own radius)
+		if s.Kind == "Circle" && rapid.IntRange(0, 3).Draw(t, "bigradius") == 0 {
+			s.Radius = F(rapid.SampledFrom([]float64{4.5e7, 40030173.592, 8.1e7}).Draw(t, "bigradiusv"))
+		}
 		// polygons with many holes (slices with spare capacity)
 		if s.Kind == "Polygon" && !s.NilPoly && len(s.Rings) > 0 && rapid.IntRange(0, 2).Draw(t, "manyholes") == 0 {
 			for h := rapid.IntRange(3, 9).Draw(t, "nholes"); h > 0; h-- {
